@@ -621,7 +621,7 @@ def replacer_cases(ctx):
 def run_streams(ctx):
   """All engine runs of one check: random histories and the directed documents, in the three streams.
   Returns the list of judged renames: dicts(stream, mode, seed, bundles, path, act, status, info, problems, trees)."""
-  plan = [('main', 'random', ctx.n(22, 320)), ('main', 'directed', ctx.n(1, 12)),
+  plan = [('main', 'random', ctx.n(18, 320)), ('main', 'directed', ctx.n(1, 12)),
           ('clash', 'directed', ctx.n(1, 6)), ('gaps', 'directed', ctx.n(1, 6)),
           ('clash', 'random', ctx.n(1, 30)), ('gaps', 'random', ctx.n(1, 30))]
   out = []
